@@ -43,7 +43,16 @@ def check(pid, tier, root, seed):
             ctx.extra['selftest'] = selftest.run(pid, root, seed)
         except Exception as e:
             ctx.extra['selftest'] = {'error': f'{type(e).__name__}: {e}'}
-    code, lines, summary = ctx.finish(mod.EXPLANATION, mod.ASSUMPTIONS, mod.RULE_TEXT, proof)
+    # the module docstring is the authoritative rule list: append the rules the hand-written explanation does not name yet
+    doc = (mod.__doc__ or '').splitlines()
+    extra = []
+    for name, fn in mod.RULES:
+        short = name.split('.')[0]
+        if short not in mod.EXPLANATION and fn.__doc__:
+            extra.append(f"({name}) " + ' '.join(fn.__doc__.split()))
+    expl = mod.EXPLANATION + ((' Further rules evaluated: ' + ' '.join(extra)) if extra else '') + \
+        ' All rules run on the canonicalised program model (gscan/canon.py: if-arm order, comparison direction, keyword/positional calls).'
+    code, lines, summary = ctx.finish(expl, mod.ASSUMPTIONS, mod.RULE_TEXT, proof)
     for ln in lines:
         print(ln)
     print(summary)
